@@ -88,6 +88,11 @@ type TruncObs struct {
 	Err   string `json:"err"`
 	Trunc int64  `json:"trunc"`
 	Fill  string `json:"fill"`
+	// the truncated file re-opened read-write, one more change set (delete table 1) added,
+	// closed, replayed again
+	After    Man    `json:"after"`
+	AfterErr string `json:"afterErr"`
+	AfterRun bool   `json:"afterRun"`
 }
 
 func runCase(c Case, tmp string, everyByte bool) (map[string]interface{}, error) {
@@ -198,6 +203,36 @@ func runCase(c Case, tmp string, everyByte bool) (map[string]interface{}, error)
 				if bad != "" {
 					t.Err = "inconsistent: " + bad
 				}
+			}
+			if fill == "trunc" && rerr == nil {
+				t.AfterRun = true
+				ad, err := os.MkdirTemp(tmp, "manafter-")
+				if err != nil {
+					return nil, err
+				}
+				if err := os.WriteFile(filepath.Join(ad, "MANIFEST"), cut, 0o644); err != nil {
+					return nil, err
+				}
+				m3, _, err := badger.VerifDiskOpenManifest(ad, 1000000)
+				if err != nil {
+					t.AfterErr = "open: " + err.Error()
+				} else {
+					if err := m3.AddChanges([]badger.VerifDiskChange{{Create: false, ID: 1}}); err != nil {
+						t.AfterErr = "addChanges: " + err.Error()
+					}
+					m3.Close()
+					rs2, _, rerr2 := badger.VerifDiskReplayManifest(filepath.Join(ad, "MANIFEST"))
+					if rerr2 != nil {
+						t.AfterErr += "replay: " + rerr2.Error()
+					} else {
+						var bad string
+						t.After, bad = proj(rs2)
+						if bad != "" {
+							t.AfterErr += "inconsistent: " + bad
+						}
+					}
+				}
+				os.RemoveAll(ad)
 			}
 			truncs = append(truncs, t)
 		}
